@@ -146,6 +146,9 @@ fn txn_alphabet() -> Vec<&'static str> {
         // a residual below the declared precision of F next to a commodity without any declaration (its total is an exact
         // zero entry of the same amount): whether the transaction balances must not depend on which is visited first
         "commodity F\n  format 1.00 F\n\n2024/01/21 o\n  A  1.00475 F\n  B  -1 F\n  A  1 X\n  B  -1 X\n\n",
+        // a posting amount whose expression leaves a zero-valued second commodity behind: accepted or refused, but the same way
+        // every time
+        "2024/01/22 q\n  A  (100 X + 5 Y - 5 Y)\n  B\n\n",
         "2024/01/18 k\n  H  1 P @ 5.1111111111111111111111111111 Z\n  H  1 Q @ 4.0000000000000000000000000004 Z\n  H  -1 R @ 4.0000000000000000000000000004 Z\n  B\n\n",
     ]
 }
